@@ -96,7 +96,12 @@ func (f *frame) makeInterface(ins *ssa.MakeInterface) Val {
 		u.store(f.cur, r, xt)
 		payload = Term{r.S, sInt}
 	}
-	return u.define(f.key+"_"+ins.Name(), Term{fmt.Sprintf("(mk-iface %d %s %s)", tag, payload.S, bvp), its})
+	res := u.define(f.key+"_"+ins.Name(), Term{fmt.Sprintf("(mk-iface %d %s %s)", tag, payload.S, bvp), its})
+	if u.ifaceDyn == nil {
+		u.ifaceDyn = map[string]dynInfo{}
+	}
+	u.ifaceDyn[res.S] = dynInfo{T: ins.X.Type(), V: x}
+	return res
 }
 
 func (f *frame) typeAssert(ins *ssa.TypeAssert) Val {
@@ -210,4 +215,10 @@ func (e *Engine) typeTagByName(name string, pkg *ssa.Package) int {
 		t = types.NewPointer(t)
 	}
 	return e.typeTag(t)
+}
+
+// dynInfo remembers the concrete value an interface value was made from in this unit (static devirtualisation).
+type dynInfo struct {
+	T types.Type
+	V Val
 }
